@@ -1028,6 +1028,22 @@ def enum_run(tier, seed):
                         c = base_cfg(proto, l, kca, kcb, n)
                         c["tamper"] = t
                         out.append(c)
+                if proto == "BSTS":
+                    # the same alterations on messages longer than the drivers' 512-octet read block (the multi-chunk branch of
+                    # bakeBSTSRunA/RunB is separate code): a flip in the first chunk, one behind it, the last octet, a foreign message
+                    cpad = {"A": 300 + l, "B": 401}
+                    lay2 = layout(proto, l, kca, kcb, *cert_lens(l, cpad))
+                    for m, segs in sorted(lay2.items()):
+                        ml = mlen(segs)
+                        tl = [["flip", m, r.randrange(min(ml, 512)), r.randrange(8)], ["flip", m, ml - 1, r.randrange(8)], ["swap", m]]
+                        if ml > 512:
+                            tl.append(["flip", m, r.randrange(512, ml), r.randrange(8)])
+                        for t in (tl if not q else [tl[r.randrange(2)], tl[-1]]):
+                            n += 1
+                            c = base_cfg(proto, l, kca, kcb, n)
+                            c["tamper"] = t
+                            c["cpad"] = dict(cpad)
+                            out.append(c)
     return out
 
 
